@@ -53,7 +53,7 @@ def leaf_factory(name, L):
 
     def build(eng):
         t = T(eng, ns=name)
-        return t.any('x', [('str', t.str('x.s', L))] + [a for a in t.json_leafs('x', 1) if a[0] != 'str'] + exotic_pool(lens))
+        return t.any('x', [('str', t.str('x.str', L))] + [a for a in t.json_leafs('x', 1) if a[0] != 'str'] + exotic_pool(lens))
 
     def mk_case(m, x, calls):
         return dict(scenario='leaf', leaf=name, calls=calls, arg=to_wire(conc(m, x)))
@@ -103,6 +103,9 @@ def leaf_factory(name, L):
                 reach.append('accepts')
             if out is not None and not is_ret(out):
                 reach.append('rejects')
+            if is_ret(p) and isinstance(p[1], (SBool, bool)):
+                tv = bool(z3.is_true(m.eval(p[1].e, model_completion=True))) if isinstance(p[1], SBool) else p[1]
+                reach.append('true' if tv else 'false')
             return record(eng, out or p, obs, w, reach, okey_=(okey(out) if out is not None else '') + '/' + okey(p))
         return harness
     return factory
@@ -321,14 +324,14 @@ def judge(case, obs):
 def units(tier):
     quick = tier == 'quick'
     us = [
-        Unit('hex_string', leaf_factory('hex_string', 12 if quick else 40)),
-        Unit('hex_key', leaf_factory('hex_key', 66)),
-        Unit('hex_signature', leaf_factory('hex_signature', 130)),
-        Unit('gpg_fingerprint', leaf_factory('gpg_fingerprint', 42)),
-        Unit('key_spelling_injective', injective_factory(66)),
-        Unit('entry:signature', entry_factory('signature', Loh=4 if quick else 12)),
-        Unit('entry:gpg_signature', entry_factory('gpg_signature', Loh=4 if quick else 12)),
-        Unit('entry:any_signature', entry_factory('any_signature', Loh=4 if quick else 12)),
+        Unit('hex_string', leaf_factory('hex_string', 12 if quick else 40), expect=('accepts', 'rejects')),
+        Unit('hex_key', leaf_factory('hex_key', 66), expect=('accepts', 'rejects')),
+        Unit('hex_signature', leaf_factory('hex_signature', 130), expect=('true', 'false')),
+        Unit('gpg_fingerprint', leaf_factory('gpg_fingerprint', 42), expect=('accepts', 'rejects')),
+        Unit('key_spelling_injective', injective_factory(66), expect=('list accepted', 'list rejected')),
+        Unit('entry:signature', entry_factory('signature', Loh=4 if quick else 12), expect=('accepts', 'rejects')),
+        Unit('entry:gpg_signature', entry_factory('gpg_signature', Loh=4 if quick else 12), expect=('accepts', 'rejects')),
+        Unit('entry:any_signature', entry_factory('any_signature', Loh=4 if quick else 12), expect=('accepts', 'rejects')),
     ]
     return us
 
